@@ -66,9 +66,17 @@ def extra_referrers(rng, g, k):
             s = '<use id="%s" href="#%s" %s/>' % (eid, t.id, rng.choice(['x="5" y="7"', 'xy="#%s|h 2"' % rng.choice(anyt).id]))
             deps = [t.id] + re.findall(r'xy="#(\w+)', s)
         elif kind == "reuse":
-            t = rng.choice([e for e in anyt if e.shape != "g"] or anyt)
-            s = '<reuse id="%s" href="#%s" x="3" y="4"/>' % (eid, t.id)
-            deps = [t.id]
+            gs = [e for e in anyt if e.shape == "g"]
+            if gs and rng.random() < 0.5:
+                # a group instance placed by its centre or far corner: needs the size of the (possibly still pending) group
+                t = rng.choice(gs)
+                o = rng.choice(anyt)
+                s = '<reuse id="%s" href="#%s" %s/>' % (eid, t.id, rng.choice(['cxy="40 30"', 'x2="50" y2="45"', 'cxy="#%s@br"' % o.id, 'cx="20" y="5"']))
+                deps = [t.id] + re.findall(r'cxy="#(\w+)', s)
+            else:
+                t = rng.choice([e for e in anyt if e.shape != "g"] or anyt)
+                s = '<reuse id="%s" href="#%s" x="3" y="4"/>' % (eid, t.id)
+                deps = [t.id]
         elif kind == "shifted":
             # plain numeric geometry plus an individual dx / dy (consumed on resolution), and an unrelated attribute that
             # makes the element wait for its target
